@@ -54,6 +54,7 @@ func newClientCxn(l lane.Lane, cxn net.Conn, dispatcher *cmdDispatcher, onClosed
 	}
 
 	cc.cs = newClientState(l, cc, dispatcher)
+	simNewObject(cc)
 	simClientBorn(cc.cs.id, cxn.RemoteAddr().String())
 
 	cc.queueStateChange(csInitialize, nil)
